@@ -262,7 +262,9 @@ func genC04shapes(g *genCtx) {
 	genShapeHistories(g, g.scale(600, 6000), []string{"/r/l/i[last()]", "//i[position() = last()]", "l/i[last() - 1]", "//l/i[position() < last()]", "/r/l/i[last()][@k]",
 		"count(//i)", "count(l/i)", "//l[count(i) > 2]", "string(//i[last()]/@k)", "sum(//i/@k)", "//i[@k = ../i[last()]/@k]",
 		"(//i)[last()]", "//i[2]", "l/i[position() = 2]", "string-join(//i/@k, ',')", "//i[not(following-sibling::i)]", "name(//*[last()])",
-		"//l/i[last()]/preceding-sibling::i[1]", "//i[last() = 3]", "concat(count(//i), ':', //i[last()]/@k)"})
+		"//l/i[last()]/preceding-sibling::i[1]", "//i[last() = 3]", "concat(count(//i), ':', //i[last()]/@k)",
+		"//i[@k][last()]/@k = '2'", "count(//i[@k][last()]) = 1", "(//i[@k])[last()]/@k > 1", "//l/i[@k][last()]/@k = //i[1]/@k", "string(//i[@k][last()]/@k) = '3'",
+		"//i[@k][last()]/@k + 1", "//i[@k > 1][last()]/@k = '4' or //i[1]/@k = '9'"})
 }
 
 func genShapeHistories(g *genCtx, n int, exprs []string) {
@@ -608,6 +610,14 @@ func genC10(g *genCtx) {
 	for _, e := range []string{"-a", "--a", "---a", "- - a", "-a + -b", "-a * -b", "a - -b", "-a | b", "-(a)", "-1", "- 1 - - 1", "2 - -1", "-a mod -b", "-a div b", "-a or -b", "-a = -b"} {
 		g.add(&Case{Kind: "ast", Expr: e})
 	}
+	// number forms at the very end of the text, and with trailing/leading blanks (value must not depend on them)
+	for _, e := range []string{"1 + .25", ".5", "2 * .125", "1 = .5", "a[. > .25]", "1 + 0.25", "1 + 25.", "3.", "0.1 + .2", "count(a) * .5", "10 div .4", "1 - .75"} {
+		g.add(&Case{Kind: "ast", Expr: e})
+		for _, v := range []string{e + " ", " " + e, e + "\n", "(" + e + ")", e + "\t "} {
+			d := Doc{{Depth: 0, Kind: 'r'}, {Depth: 1, Kind: 'e', Name: "a"}}
+			g.add(&Case{Kind: "meta", Doc: d, Ctx: Ref{0, -1}, Expr: e, Extra: "val;0;" + hx(v)})
+		}
+	}
 	for _, e := range []string{"- - a", "- - - a", "- - - - a", "a - - b", "a - - - b", "- a * - - b", "- - a | b", "a or - - b", "- - a = - - b", "a + - - b * c", "- - a div - b"} {
 		g.add(&Case{Kind: "ast", Expr: e, Extra: "chain"})
 	}
@@ -816,6 +826,30 @@ func genC11(g *genCtx) {
 	r := g.r
 	pool := docPool(r, collideProfile, g.scale(5, 6), g.scale(3, 4), g.scale(80, 300), 20)
 	tests := []string{"a", "b", "a-1", "a1", "*", "node()", "text()", "comment()"}
+	// one compiled union / sequence selected again and again, on one and on two documents: every selection
+	// must yield the whole union (operands must not be shared between the clones)
+	for i := 0; i < g.scale(800, 8000); i++ {
+		d := pool[r.intn(len(pool))]
+		a, b := genPathPF(r, 1+r.intn(2), tests), genPathPF(r, 1+r.intn(2), tests)
+		e := a + " | " + b
+		if r.chance(1, 4) {
+			e = "//*/(" + r.pick(tests) + ", " + r.pick(tests) + ")"
+		}
+		var ops []string
+		var d2 Doc
+		if r.chance(1, 2) {
+			d2 = pool[r.intn(len(pool))]
+			ops = append(ops, "D"+hx(d2.Encode()))
+		}
+		for k := 0; k < 3+r.intn(3); k++ {
+			dd, at := d, ""
+			if d2 != nil && r.chance(1, 2) {
+				dd, at = d2, "@"
+			}
+			ops = append(ops, fmt.Sprintf("S%s%s:-1", at, pickNodeCtx(r, dd)))
+		}
+		g.add(&Case{Kind: "hist", Doc: d, Ctx: Ref{0, -1}, Expr: e, Extra: strings.Join(ops, ";")})
+	}
 	for i := 0; i < 60; i++ {
 		g.add(&Case{Kind: "key", Doc: pool[r.intn(len(pool))], Ctx: Ref{0, -1}})
 	}
@@ -859,14 +893,17 @@ func genC12(g *genCtx) {
 	for i := 0; i < g.scale(25000, 250000); i++ {
 		d := pool[r.intn(len(pool))]
 		var e string
+		flat := ""
 		switch r.intn(10) {
 		case 0, 1, 2, 3:
 			e = genFlatPath(r)
+			flat = ";flat" // document order, no repetition, the oracle's node set
 		case 4:
 			// flat path with C02/C03 predicates
 			e = r.pick([]string{"a", "*", "node()"}) + "[" + genBoolPred(r, 0) + "]/" + r.pick([]string{"b", "*", "@*", "text()"})
 		case 5:
 			e = r.pick([]string{"a", "*"}) + "[" + r.pick(posPreds) + "]/" + r.pick([]string{"b", "*", "@*"})
+			flat = ";flat"
 		case 6:
 			if r.chance(1, 2) {
 				e = "reverse(" + stepStr(nil, r.pick(axes12), r.pick(nodeTests)) + ")"
@@ -880,7 +917,20 @@ func genC12(g *genCtx) {
 		default:
 			e = r.pick([]string{genPathPF(r, 2, nodeTests), genFilteredPath(r, 1), genPositional(r)})
 		}
-		g.add(&Case{Kind: "iter", Doc: d, Ctx: pickNodeCtx(r, d), Expr: e, Extra: fmt.Sprint(r.intn(6))})
+		ctx := pickNodeCtx(r, d)
+		if r.chance(1, 8) {
+			ctx = pickCtx(r, d) // attribute context nodes too
+		}
+		g.add(&Case{Kind: "iter", Doc: d, Ctx: ctx, Expr: e, Extra: fmt.Sprint(r.intn(6)) + flat})
+	}
+	// attribute nodes reaching another step indirectly (through self steps, or as the context node): an attribute
+	// has no attributes and no children
+	for i := 0; i < g.scale(800, 8000); i++ {
+		d := pool[r.intn(len(pool))]
+		head := r.pick([]string{"", "*/", "a/", "//*/", "node()/", "./"})
+		mid := r.pick([]string{"@*", "@k", "attribute::node()", "@*/.", "@*/self::node()", "@k/./.", "@*/self::node()/."})
+		tail := r.pick([]string{"@*", "@k", "attribute::*", "*", "node()", "text()", "@*/..", "self::node()/@*", "./@m"})
+		g.add(&Case{Kind: "iter", Doc: d, Ctx: pickCtx(r, d), Expr: head + mid + "/" + tail, Extra: fmt.Sprint(r.intn(4)) + ";flat"})
 	}
 	// reverse(E) yields E's sequence reversed, count(E) its length: every axis, flat paths, filtered paths
 	for i := 0; i < g.scale(6000, 60000); i++ {
